@@ -279,3 +279,49 @@ func (t *vRT) send(ctx context.Context, msg Message) (Message, error) {
 	}
 	return t.reply, nil
 }
+
+// vPeerChannel is a Channel whose other end is the harness (the "peer"):
+// frames written by the code under test arrive on toPeer, frames and fatal
+// errors for it are sent on fromPeer / errs.
+type vPeerChannel struct {
+	toPeer   chan *Fcall
+	fromPeer chan *Fcall
+	errs     chan error
+	msize    int
+	werr     error // when non-nil WriteFcall fails with it (set by the harness before the write)
+	wfailAt  int   // fail the n-th write (1-based) when > 0
+	nwrites  int
+}
+
+func newVPeerChannel() *vPeerChannel {
+	return &vPeerChannel{toPeer: make(chan *Fcall), fromPeer: make(chan *Fcall), errs: make(chan error), msize: 8192}
+}
+
+func (c *vPeerChannel) ReadFcall(ctx context.Context, fc *Fcall) error {
+	select {
+	case f := <-c.fromPeer:
+		*fc = *f
+		return nil
+	case err := <-c.errs:
+		return err
+	case <-ctx.Done():
+		return ctx.Err()
+	}
+}
+
+func (c *vPeerChannel) WriteFcall(ctx context.Context, fc *Fcall) error {
+	c.nwrites++
+	if c.wfailAt > 0 && c.nwrites == c.wfailAt {
+		return errVMock
+	}
+	cp := *fc
+	select {
+	case c.toPeer <- &cp:
+		return nil
+	case <-ctx.Done():
+		return ctx.Err()
+	}
+}
+
+func (c *vPeerChannel) MSize() int     { return c.msize }
+func (c *vPeerChannel) SetMSize(m int) { c.msize = m }
